@@ -88,6 +88,53 @@ pub trait Obj: Any {
     fn threads(&self, _k: usize, _op: &str, _a: &[u128]) -> String {
         "X".into()
     }
+    /// `k` threads share `&self`; each runs the whole batch of DIFFERENT queries (`a` cut into groups of
+    /// `arity` arguments) `reps` times, each thread starting at another place of the batch, and every
+    /// answer must equal the one computed sequentially beforehand; the serialized form must not change.
+    fn tmix(&self, k: usize, reps: usize, op: &str, arity: usize, a: &[u128]) -> String {
+        let qs: Vec<&[u128]> = a.chunks(arity.max(1)).collect();
+        if qs.is_empty() {
+            return "X".into();
+        }
+        let base: Vec<String> = qs.iter().map(|q| self.q(op, q)).collect();
+        let before = self.ser();
+        let me = ForceSync(self);
+        let bad = std::thread::scope(|s| {
+            let hs: Vec<_> = (0..k)
+                .map(|t| {
+                    let qs = &qs;
+                    let base = &base;
+                    s.spawn(move || {
+                        let m = qs.len();
+                        let mut bad: Option<(usize, String)> = None;
+                        for r in 0..reps {
+                            for j in 0..m {
+                                let idx = (j + t * 7 + r) % m;
+                                let x = me.get().q(op, qs[idx]);
+                                if x != base[idx] && bad.is_none() {
+                                    bad = Some((idx, x));
+                                }
+                            }
+                        }
+                        bad
+                    })
+                })
+                .collect();
+            hs.into_iter().filter_map(|h| h.join().ok().flatten()).next()
+        });
+        let after = self.ser();
+        match bad {
+            None => format!("T|{}", tf(before == after)),
+            Some((i, x)) => format!(
+                "F:{}({})={}:sequential={}|{}",
+                op,
+                qs[i].iter().map(|v| v.to_string()).collect::<Vec<_>>().join(";"),
+                x,
+                base[i],
+                tf(before == after)
+            ),
+        }
+    }
 }
 
 // --------------------------------------------------------------------------- iterators
@@ -1116,6 +1163,10 @@ impl State {
             },
             "THREADS" => match &self.cur {
                 Some(o) => o.threads(t[1].parse().unwrap(), t[2], &parse_nums(&t[3..])),
+                None => "X".into(),
+            },
+            "TMIX" => match &self.cur {
+                Some(o) => o.tmix(t[1].parse().unwrap(), t[2].parse().unwrap(), t[3], t[4].parse().unwrap(), &parse_nums(&t[5..])),
                 None => "X".into(),
             },
             "FN" => crate::spec::exec_fn(true, &t[1..]),
